@@ -10,4 +10,5 @@ AccMin2  == {Acc(0, 0, 0, 8, FALSE), Acc(0, 0, 8, 8, TRUE)}
 AllOther == {"call", "callgrow", "grow", "growneg", "if", "else", "end", "loop", "endloop", "mix"}
 S13 == {1, 3}
 S1 == {1}
+S3 == {3}
 =============================================================================
